@@ -1125,7 +1125,7 @@ def solve(objfun, x0, h=None, lh=None, prox_uh=None, argsf=(), argsh=(), argspro
         xp = dykstra(projections,x0,max_iter=params("dykstra.max_iters"),tol=params("dykstra.d_tol"))
         if not np.allclose(xp,x0):
             warnings.warn("x0 not feasible w.r.t given constraints, adjusting", RuntimeWarning)
-            x0 = xp.copy()
+        x0 = xp.copy()  # always start from the projected point, even if the adjustment is too small to warn about
 
     # Enforce lower & upper bounds on x0
     idx = (x0 < xl)
